@@ -29,6 +29,9 @@ def main():
             continue
         if not os.path.exists(os.path.join(BASE, d, "patch.diff")):
             continue
+        mp = os.path.join(BASE, d, "meta.json")
+        if os.path.exists(mp) and json.load(open(mp)).get("retired"):
+            continue
         tmp = tempfile.mkdtemp(prefix="seedchk_")
         try:
             src = os.path.join(tmp, "repo")
